@@ -6,9 +6,12 @@ static const char* STRSRC = nullptr;   // a long non-zero string for strdup/strn
 static void init_strsrc() { static char buf[70000]; for (size_t i = 0; i < sizeof buf - 1; i++) buf[i] = (char)('a' + (i * 7 + i / 13) % 26); buf[sizeof buf - 1] = 0; STRSRC = buf; }
 
 // Allocation dispatch. `valid` = false when the op does not denote a call we can make (unknown fn, bad heap, precondition).
-uint8_t* Exec::call_alloc(const std::string& f, int h, size_t n, size_t c, size_t a, size_t o, bool& zeroing, size_t& req, size_t& eff_a, size_t& eff_o, bool& valid) {
+uint8_t* Exec::call_alloc(const std::string& f0, int h, size_t n, size_t c, size_t a, size_t o, bool& zeroing, size_t& req, size_t& eff_a, size_t& eff_o, bool& valid) {
   mi_heap_t* hp = nullptr; valid = true; zeroing = false; req = n; eff_a = 1; eff_o = 0;
   if (h > 0) { hp = heap_of(h); if (!hp) { valid = false; return nullptr; } }
+  // the throwing operator-new forms abort() by design in the C build when memory is refused and no new-handler is installed
+  if (allow_null && (f0 == "new" || f0 == "new_n" || f0 == "new_aligned")) { count(C_EXCLUDED); valid = false; return nullptr; }
+  const std::string& f = f0;
   void* p = nullptr;
   auto tot = [&](size_t cc, size_t nn) { return cc * nn; };   // generator keeps products small in non-edge ops
   if (f == "malloc")            p = hp ? mi_heap_malloc(hp, n) : mi_malloc(n);
@@ -89,7 +92,7 @@ void Exec::free_slot(int s, const std::string& f0) {
     // mi_cfree only frees what mi_is_in_heap_region accepts; OS memory above MI_SEGMENT_MAP_MAX_ADDRESS (48 TiB: alignments > one segment
     // get no address hint) is documented as outside the segment map's range -> guard, not an oracle
     if (mi_is_in_heap_region(p)) mi_cfree(p);
-    else { if ((uintptr_t)p < ((uintptr_t)48 << 40)) fail_now("cfree-region", "op#%ld mi_is_in_heap_region(%p) is false for a live block (n=%zu a=%zu)", opi, p, n, b.a); count(C_EXCLUDED); mi_free(p); }
+    else { if ((uintptr_t)p < ((uintptr_t)48 << 40) && !ever_faulted) fail_now("cfree-region", "op#%ld mi_is_in_heap_region(%p) is false for a live block (n=%zu a=%zu)", opi, p, n, b.a); count(C_EXCLUDED); mi_free(p); }
   }
   else mi_free(p);
   count(C_FREES);
@@ -132,8 +135,8 @@ void Exec::op_realloc(const Op& op) {
   else if (f == "recalloc")  { zeroing = true; req = c * n; q = hp ? mi_heap_recalloc(hp, p, c, n) : mi_recalloc(p, c, n); }
   else if (f == "reallocarray") { if (hp) return; req = c * n; q = mi_reallocarray(p, c, n); }
   else if (f == "reallocarr")   { if (hp) return; req = c * n; void* pp = p; int rc = mi_reallocarr(&pp, c, n); q = (rc == 0 ? pp : nullptr); if (rc != 0 && pp != p) fail_now("reallocarr-store", "op#%ld mi_reallocarr failed (%d) but stored %p", opi, rc, pp); }
-  else if (f == "new_realloc")  { if (hp || n > MiB) return; q = mi_new_realloc(p, n); }
-  else if (f == "new_reallocn") { if (hp || c * n > MiB) return; req = c * n; q = mi_new_reallocn(p, c, n); }
+  else if (f == "new_realloc")  { if (hp || n > MiB || allow_null) return; q = mi_new_realloc(p, n); }
+  else if (f == "new_reallocn") { if (hp || c * n > MiB || allow_null) return; req = c * n; q = mi_new_reallocn(p, c, n); }
   else if (f == "realloc_aligned")     { aligned_fn = true; ea = a; q = hp ? mi_heap_realloc_aligned(hp, p, n, a) : mi_realloc_aligned(p, n, a); }
   else if (f == "realloc_aligned_at")  { aligned_fn = true; ea = a; eo = o; q = hp ? mi_heap_realloc_aligned_at(hp, p, n, a, o) : mi_realloc_aligned_at(p, n, a, o); }
   else if (f == "rezalloc_aligned")    { aligned_fn = true; zeroing = true; ea = a; q = hp ? mi_heap_rezalloc_aligned(hp, p, n, a) : mi_rezalloc_aligned(p, n, a); }
